@@ -2,7 +2,8 @@
    logic: every failing path after launch kills the runner; the OS-level termination and the
    later Kill are observed by the correspondence harness). Statements only. *)
 From Coq Require Import List NArith ZArith Bool String.
-From GP Require Import Base.Val Base.Bytes Base.GoStrings Model.Negotiate Model.Handshake Model.Params Model.StartFail Proofs.HandshakeP Proofs.StartFailP.
+From GP Require Import Base.Val Base.Bytes Base.GoStrings Model.Negotiate Model.Handshake Model.Params Model.StartFail Model.LaunchOpts Model.StartPipe Proofs.HandshakeP Proofs.StartFailP Proofs.StartPipeP.
+From GP Require Model.Secure Proofs.LaunchOptsP.
 From GP Require Import Generated.
 From GP Require Props.C01.
 Import ListNotations.
@@ -70,3 +71,45 @@ Example C05_nonvacuous_runner_start_failure :
   sc_workload (failed_runner_start gen_sf_params SfRunner true true) = true /\
   sc_dir (failed_runner_start gen_sf_params SfRunner true true) = true.
 Proof. split; reflexivity. Qed.
+
+(* ---- the whole of Start, every way out (Model/StartPipe.v composes the option checks, the SecureConfig check, the
+   runner factory, runner.Start and the handshake stage).  The launch-option facts are C14's: *)
+Lemma facts_launch_option_checks : LaunchOptsP.shape gen_lo_params.
+Proof. repeat split; reflexivity. Qed.
+
+Lemma handshake_stage_kills : forall c o out t r, In r (start_after_launch gen_hs_params c o out t) ->
+  match fst r with OOk _ => has_kill (snd r) = false | _ => has_kill (snd r) = true end.
+Proof. intros c o out t r Hr. destruct (C01.C01_handshake_sound c o out t r Hr) as (_ & K & _). exact K. Qed.
+
+(* THE PROPERTY over the composed model: for every configuration of launch options and every behaviour of the
+   environment (checksum and file, runner factory, runner.Start, anything at all on the plugin's stdout and either way
+   of ending), whenever Start returns an error: nothing was launched; or Start itself killed what it launched before
+   returning; or the runner is on record and names its workload, and any later Kill -- one or many -- ends it.  And
+   whenever a runner naming its workload was obtained, a later Kill removes the custom runner's socket directory. *)
+Theorem C05_start_error_leaves_nothing_behind : forall opts w e n,
+  In e (start_pipeline gen_lo_params gen_sf_params gen_hs_params opts w) -> e_error e = true -> (1 <= n)%nat ->
+  (e_launched e = false \/ e_killed_by_start e = true \/
+   (sc_named (e_client e) = true -> sc_workload (sf_kills gen_sf_params n (e_client e)) = false)) /\
+  (sc_runner (e_client e) = true -> sc_named (e_client e) = true -> sc_dir (sf_kills gen_sf_params n (e_client e)) = false).
+Proof.
+  exact (start_error_leaves_nothing gen_lo_params gen_sf_params gen_hs_params facts_runner_recorded_first handshake_stage_kills).
+Qed.
+Print Assumptions C05_start_error_leaves_nothing_behind.
+
+(* nothing is launched for an ambiguous configuration or a binary that does not match its checksum *)
+Theorem C05_launch_needs_checks : forall opts w e,
+  In e (start_pipeline gen_lo_params gen_sf_params gen_hs_params opts w) -> e_launched e = true ->
+  unambiguous opts = true /\
+  (l_secure opts = true -> Secure.launched (Secure.start_secure (w_checksum w) (w_hash_present w) (w_file w)) = true).
+Proof. exact (launch_needs_checks gen_lo_params gen_sf_params gen_hs_params facts_launch_option_checks). Qed.
+
+(* non-vacuity: a custom runner, a binary that matches, a plugin that prints half a line and stays silent: Start fails at
+   the handshake stage having launched and killed *)
+Example C05_pipeline_nonvacuous :
+  map (fun e => (e_error e, e_launched e, e_killed_by_start e))
+      (start_pipeline gen_lo_params gen_sf_params gen_hs_params
+         {| l_cmd := false; l_reattach := false; l_runner := true; l_secure := false; l_mux := false |}
+         {| w_checksum := []; w_hash_present := false; w_file := Secure.FileErr; w_factory_fails := false; w_runner_start := None;
+            w_hs_cfg := C01.ex_cfg; w_oracle := C01.ex_orc "tcp" "x" false; w_out := bs "1|1|tc"; w_term := TStall |})
+  = [(true, true, true)].
+Proof. vm_compute. reflexivity. Qed.
